@@ -75,6 +75,9 @@ func gen(g *mon.Gen) {
 				g.Emit(&Case{Client: client, Mode: mode, G: gs, M: m, Seed: rng.Int63(), Delay: i % 3, Block: rep%2 == 0})
 				i++
 			}
+			if client != clientx.Serial && (rep < 2 || g.Thorough() && rep%10 == 0) {
+				g.Emit(&Case{Client: client, Mode: "plain", G: 8, M: 2, Seed: rng.Int63(), Delay: 3})
+			}
 		}
 	}
 }
@@ -106,6 +109,10 @@ type devConn struct {
 	writes  int
 	// blocking: Read blocks for a few milliseconds when nothing is readable (serial-port like)
 	blocking bool
+	// wdl: the write deadline the client set; like a real connection, a Write after it has passed fails with a timeout
+	wdl time.Time
+	// readyTime (delay class 3, a slow device): the reply becomes readable only at this moment
+	readyTime time.Time
 }
 
 func (d *devConn) jitter() {
@@ -131,6 +138,9 @@ func (d *devConn) Write(p []byte) (int, error) {
 	if d.closed {
 		return 0, io.ErrClosedPipe
 	}
+	if !d.wdl.IsZero() && time.Now().After(d.wdl) {
+		return 0, os.ErrDeadlineExceeded
+	}
 	d.writes++
 	q, err := specref.DecodeReq(d.fr, p)
 	if err != nil {
@@ -153,6 +163,9 @@ func (d *devConn) Write(p []byte) (int, error) {
 	if d.delay > 0 {
 		d.readyAt = d.rng.Intn(4)
 	}
+	if d.delay == 3 {
+		d.readyTime = time.Now().Add(40 * time.Millisecond)
+	}
 	if ow != nil && ow.noReply {
 		d.readyAt = 1 << 30
 	}
@@ -165,6 +178,12 @@ func (d *devConn) Read(p []byte) (int, error) {
 	defer d.mu.Unlock()
 	if d.closed {
 		return 0, io.ErrClosedPipe
+	}
+	if d.delay == 3 && len(d.pending) > 0 && time.Now().Before(d.readyTime) {
+		d.mu.Unlock()
+		time.Sleep(time.Millisecond) // the device is still working on it; do not let the polling client burn a core
+		d.mu.Lock()
+		return 0, os.ErrDeadlineExceeded
 	}
 	if len(d.pending) == 0 || d.readyAt > 0 {
 		if d.readyAt > 0 && len(d.pending) > 0 {
@@ -206,13 +225,18 @@ func (d *devConn) Close() error {
 
 type addrT string
 
-func (a addrT) Network() string                       { return "verif" }
-func (a addrT) String() string                        { return string(a) }
-func (d *devConn) LocalAddr() net.Addr                { return addrT("l") }
-func (d *devConn) RemoteAddr() net.Addr               { return addrT("r") }
-func (d *devConn) SetDeadline(t time.Time) error      { return nil }
-func (d *devConn) SetReadDeadline(t time.Time) error  { return nil }
-func (d *devConn) SetWriteDeadline(t time.Time) error { return nil }
+func (a addrT) Network() string                      { return "verif" }
+func (a addrT) String() string                       { return string(a) }
+func (d *devConn) LocalAddr() net.Addr               { return addrT("l") }
+func (d *devConn) RemoteAddr() net.Addr              { return addrT("r") }
+func (d *devConn) SetDeadline(t time.Time) error     { return nil }
+func (d *devConn) SetReadDeadline(t time.Time) error { return nil }
+func (d *devConn) SetWriteDeadline(t time.Time) error {
+	d.mu.Lock()
+	d.wdl = t
+	d.mu.Unlock()
+	return nil
+}
 
 func head(b []byte) []byte {
 	if len(b) > 24 {
@@ -258,9 +282,15 @@ func run(ci any, r *mon.Rec) {
 	}
 	var cl doer
 	var connect func() error
+	// slow-device cases: replies take 40 ms each, so the callers queueing on the shared client wait longer than the write
+	// timeout (250 ms) before their turn comes; time spent waiting for the client is not time spent writing
+	wt := time.Duration(0)
+	if c.Delay == 3 {
+		wt = 250 * time.Millisecond
+	}
 	switch c.Client {
 	case clientx.TCP, clientx.RTUNet:
-		cfg := modbus.ClientConfig{ReadTimeout: 2 * time.Second, DialContextFunc: func(ctx context.Context, a string) (net.Conn, error) { return newConn(), nil }}
+		cfg := modbus.ClientConfig{ReadTimeout: 2 * time.Second, WriteTimeout: wt, DialContextFunc: func(ctx context.Context, a string) (net.Conn, error) { return newConn(), nil }}
 		var nc *modbus.Client
 		if c.Client == clientx.TCP {
 			nc = modbus.NewTCPClientWithConfig(cfg)
